@@ -19,9 +19,12 @@ G = lambda n: ("G", n)
 # ---------------------------------------------------------------- generator
 
 class Gen:
-    def __init__(self, rng, methods=True, globals_=True, one_param=True, max_funcs=5, max_pkgs=3, deep_conds=True):
+    def __init__(self, rng, methods=True, globals_=True, one_param=True, max_funcs=5, max_pkgs=3, deep_conds=True, simple=False):
         self.rng, self.methods, self.globals_, self.one_param = rng, methods, globals_, one_param
         self.max_funcs, self.max_pkgs, self.deep_conds = max_funcs, max_pkgs, deep_conds
+        # simple: every function is called from exactly one call site, every condition is opaque (every path is
+        # feasible), no package-level variables -- the class of the precision claim of C02
+        self.simple = simple
 
     def program(self):
         r = self.rng
@@ -42,14 +45,38 @@ class Gen:
         self.p = dict(funcs=funcs, ginit=[r.random() < 0.5 for _ in range(ngl)], gpkg=[r.randrange(npk) for _ in range(ngl)], npkgs=npk)
         self.next_d = 1
         self.next_cs = 1
+        if self.simple:
+            # a call tree: function g >= 1 is called once, from a function of smaller index and a package that sees it
+            for g in range(1, nf):
+                funcs[g]["pkg"] = r.randrange(npk)
+            self.must_call = {f: [] for f in range(nf)}
+            for g in range(1, nf):
+                callers = [f for f in range(g) if funcs[f]["pkg"] >= funcs[g]["pkg"]]
+                self.must_call[r.choice(callers)].append(g)
         for f in range(nf):
             self.f = f
             self.nloc = funcs[f]["nparams"] + r.randint(1, 3)
-            if funcs[f]["nparams"] == 1 and not funcs[f]["method"] and r.random() < 0.7:
+            if self.simple:
+                funcs[f]["body"] = self.simple_body(f)
+            elif funcs[f]["nparams"] == 1 and not funcs[f]["method"] and r.random() < 0.7:
                 funcs[f]["body"] = self.contract_body()
             else:
                 funcs[f]["body"] = self.block(r.randint(2, 6), 0, True)
         return self.p
+
+    def simple_body(self, f):
+        r = self.rng
+        stmts = M.flatten(self.block(r.randint(2, 5), 0, False))
+        for g in self.must_call[f]:
+            fd = self.p["funcs"][g]
+            args = [self.atom() for _ in range(fd["nparams"])]
+            if fd["method"] and args[0] == "nil":
+                args[0] = self.var()
+            call = ("call", self.var() if r.random() < 0.8 else None, g, args, self.cs_id())
+            stmts.insert(r.randint(0, len(stmts)), call)
+        if r.random() < 0.6:
+            stmts.append(("return", self.atom()))
+        return M.seq(stmts)
 
     def noret_block(self, n):
         out = []
@@ -110,6 +137,8 @@ class Gen:
         return d
 
     def cond(self, depth=0):
+        if self.simple:
+            return ("opaque",)
         r = self.rng.random()
         if depth >= 2 or not self.deep_conds:
             r *= 0.62
@@ -160,6 +189,8 @@ class Gen:
             return ("assign", self.var(), self.atom())
         if r < 0.42:
             return ("deref", self.deref_id(), self.var())
+        if self.simple and 0.42 <= r < 0.62:
+            return ("assign", self.var(), self.atom())
         if r < 0.56:
             c = self.call(True)
             if c is not None:
@@ -284,6 +315,9 @@ func runOne(e entry, v int, nb int) (line string) {
 		}
 	}()
 	e.run()
+	if rt.Overflowed() {
+		return "-!"
+	}
 	return "-"
 }
 
@@ -406,7 +440,7 @@ def run_model(progs, ctrs=None):
         head, decl, funcs, dups, runs = [x.strip() for x in l.split("|")]
         flags = dict(kv.split("=") for kv in head.split())
         an = flags["an"] == "1"
-        res[name] = dict(wf=flags["wf"] == "1", an=an, gsafe=flags["gsafe"] == "1", clocal=flags["clocal"] == "1",
+        res[name] = dict(wf=flags["wf"] == "1", guarded=flags["guarded"] == "1", an=an, gsafe=flags["gsafe"] == "1", clocal=flags["clocal"] == "1",
                          decl=parse_trigs(decl), funcs=[parse_trigs(x) for x in funcs.split("/")] if an else [],
                          dups=[parse_trigs(x) for x in dups.split("/")] if an else [],
                          runs=[int(x) for x in runs.split(",")])
@@ -691,13 +725,173 @@ def truth_panics(truth, name, pos):
         byline.setdefault("%s:%d" % (f, ln), set()).add(d)
     out = []
     for x in truth.get(name, []):
-        if x == "-":
+        if x in ("-", "-!"):
             out.append(None)
         else:
             out.append(byline.get(x, {"?" + x}))
     return out
 
 
+def truth_complete(truth, name):
+    """did every run that ended without a panic get all the answers it asked for (so that the 2^NB runs are all the
+    executions of the program)?"""
+    return all(x != "-!" for x in truth.get(name, []))
+
+
 def show(p, name, ctr=()):
     pr = M.Printer(p, name, None)
     return "".join("// %s\n%s" % (k, v) for k, v in pr.files().items()) + "model-line: " + M.prog_line(p, ctr) + "\n"
+
+
+# ---------------------------------------------------------------- the suite
+
+def lone_variant(rng, p):
+    """guard everything except one dereference; returns (program, kept id) or (None, None)"""
+    ds = [d for d, _ in M.derefs_of(M.expand(p))]
+    if not ds:
+        return None, None
+    d = rng.choice(ds)
+    return guard_all(rng, p, keep={d}), d
+
+
+class Case:
+    def __init__(self, name, prog, stream, lone=None):
+        self.name, self.prog, self.stream, self.lone = name, prog, stream, lone
+
+
+def gen_cases(rng, n, streams=("random", "guarded", "lone", "lone-simple"), prefix="q"):
+    cases = []
+    for i in range(n):
+        stream = streams[i % len(streams)]
+        simple = stream == "lone-simple"
+        g = Gen(rng, globals_=not simple, max_funcs=3 if simple else 5, simple=simple, methods=not simple)
+        p = g.program()
+        lone = None
+        if stream == "guarded":
+            p = guard_all(rng, p)
+        elif stream in ("lone", "lone-simple"):
+            q, d = lone_variant(rng, p)
+            if q is None:
+                stream = "random"
+            else:
+                p, lone = q, d
+        cases.append(Case("%s%04d" % (prefix, i), p, stream, lone))
+    return cases
+
+
+def run_suite(ctx, cases, styles_seed=0, nb=None):
+    """-> dict with per-case observations, or {'error': msg}"""
+    global NB
+    old_nb = NB
+    if nb is not None:
+        NB = nb
+    try:
+        return _run_suite(ctx, cases, styles_seed)
+    finally:
+        NB = old_nb
+
+
+def _run_suite(ctx, cases, styles_seed):
+    progs = {c.name: c.prog for c in cases}
+    styles = {c.name: (random.Random(styles_seed * 100003 + i) if c.stream != "corpus" else None) for i, c in enumerate(cases)}
+    root = ctx.scratch()
+    try:
+        pos, cpos = write_module(root, progs, styles)
+        truth, err = run_truth(root)
+        if truth is None:
+            return {"error": err}
+        real, err = run_real(root)
+        if real is None:
+            return {"error": err}
+        if real.get("errors"):
+            return {"error": "the real analysis reported errors: %r" % real["errors"][:3]}
+        ctrs = {n: real_contracts(real, n) for n in progs}
+        model, err = run_model(progs, ctrs)
+        if model is None:
+            return {"error": err}
+        flagged, err = model_flagged(progs, model)
+        if flagged is None:
+            return {"error": err}
+    finally:
+        import shutil
+        shutil.rmtree(root, ignore_errors=True)
+    obs = {}
+    for c in cases:
+        n = c.name
+        m = model[n]
+        rt_, odd = real_triggers(real, n, pos[n], cpos[n])
+        rep = stable_groups(c.prog)
+        rtc, mtc = canon_triggers(rt_, rep), canon_triggers(model_triggers(m), rep)
+        rr, other = real_reports(real, n, pos[n])
+        tp = truth_panics(truth, n, pos[n])
+        fl, flow = flagged[n]
+        exec_bad = [(v, sorted(t) if t else None, mr) for v, (t, mr) in enumerate(zip(tp, m["runs"]))
+                    if (t is None) != (mr == 0) or (t is not None and mr not in t)]
+        obs[n] = dict(model=m, ctr=ctrs[n], real_trig=rtc, model_trig=mtc, odd=odd, reports=rr, other=other,
+                      truth=tp, complete=truth_complete(truth, n), flagged=fl, flow=flow, exec_bad=exec_bad,
+                      panics=set().union(*[t for t in tp if t]) if any(tp) else set())
+    return {"obs": obs}
+
+
+def describe(c, o):
+    lines = ["program %s (stream %s%s), contracted functions %s" % (c.name, c.stream, "" if c.lone is None else ", unprotected dereference %d" % c.lone, sorted(o["ctr"]))]
+    lines.append(show(c.prog, c.name, o["ctr"]))
+    lines.append("real diagnostics at dereferences: %s   elsewhere: %s" % (sorted(o["reports"]), o["other"]))
+    lines.append("model: dereferences a nil source reaches: %s  gsafe=%s clocal=%s guarded=%s" % (sorted(o["flagged"]), o["model"]["gsafe"], o["model"]["clocal"], o["model"]["guarded"]))
+    lines.append("run-time panics (over %d opaque vectors): %s%s" % (len(o["truth"]), sorted(o["panics"], key=str), "" if o["complete"] else "  (some runs asked for more answers)"))
+    if o["real_trig"] != o["model_trig"]:
+        lines.append("triggers only in the real analysis: %s" % sorted(o["real_trig"] - o["model_trig"], key=str))
+        lines.append("triggers only in the model:         %s" % sorted(o["model_trig"] - o["real_trig"], key=str))
+    if o["exec_bad"]:
+        lines.append("executions where model M6 and the compiled program disagree (vector, real panic, model panic): %s" % o["exec_bad"][:5])
+    return "\n".join(lines) + "\n"
+
+
+def stats(cases, obs):
+    st = {"programs": len(cases)}
+    for c in cases:
+        st["stream:" + c.stream] = st.get("stream:" + c.stream, 0) + 1
+    st["functions"] = sum(len(c.prog["funcs"]) for c in cases)
+    st["multi_package"] = sum(1 for c in cases if c.prog["npkgs"] > 1)
+    st["with_globals"] = sum(1 for c in cases if c.prog["ginit"])
+    st["with_contracts"] = sum(1 for c in cases if obs[c.name]["ctr"])
+    st["panicking"] = sum(1 for c in cases if obs[c.name]["panics"])
+    st["clean_in_real_tool"] = sum(1 for c in cases if not obs[c.name]["reports"] and not obs[c.name]["other"])
+    st["dereferences"] = sum(len(M.derefs_of(M.expand(c.prog))) for c in cases)
+    st["executions"] = sum(len(obs[c.name]["truth"]) for c in cases)
+    st["real_triggers"] = sum(len(obs[c.name]["real_trig"]) for c in cases)
+    return st
+
+
+def amplify(p, returns=True, args=True):
+    """search helper: a variant of p in which nil actually flows (every return returns nil / every literal or
+    allocated argument becomes nil) -- used to turn a divergence of the trigger sets into a concrete program on
+    which the property fails"""
+    def at(a):
+        if args and a == "new":
+            return "nil"
+        if isinstance(a, tuple) and a[0] == "nest":
+            return ("nest", a[1], [at(x) for x in a[2]], a[3])
+        return a
+
+    def go(s):
+        k = s[0]
+        if k == "seq":
+            return ("seq", go(s[1]), go(s[2]))
+        if k == "call":
+            fd = p["funcs"][s[2]]
+            new = [at(a) for a in s[3]]
+            if fd.get("method") and new and new[0] == "nil":
+                new[0] = s[3][0]
+            return ("call", s[1], s[2], new, s[4])
+        if k == "if":
+            return ("if", s[1], go(s[2]), go(s[3]))
+        if k == "while":
+            return ("while", s[1], go(s[2]))
+        if k == "return" and returns:
+            return ("return", "nil")
+        return s
+
+    q = dict(p)
+    q["funcs"] = [dict(fd, body=go(fd["body"])) for fd in p["funcs"]]
+    return q
